@@ -226,3 +226,75 @@ func related2(z *render.Renderer, s *render.VPState) bool {
 	t := z.VPGet()
 	return vp.All(t.CReg == s.CReg, sameNumbers(&t.NReg, &s.NReg), t.CSel == s.CSel, t.NSel == s.NSel, t.Palette == s.Palette)
 }
+
+var _ = vp.Reg("Repaint", H_Repaint)
+
+// H_Repaint (relational, a real two-path history): a Renderer that has already
+// painted one path with a gradient, then receives one register write (any
+// number or colour register, in particular one inside the gradient's register
+// window, including the part of the window that wraps past register 63),
+// paints the next path exactly like a Renderer that holds the same registers
+// but never painted the first path. Paint state remembered from an earlier
+// path (a cache) that a register write fails to invalidate shows up here.
+func H_Repaint() {
+	var z1, z2 render.Renderer
+	var r1, r2 rec.Raster
+	_, m := arbitrary(&z1, &r1, 16, 16)
+	adj := vp.U8("adj")
+	vp.Assume(adj <= 6)
+	maxStops := vp.Param("stops", 2)
+	c := m.CReg[(m.CSel+64-adj)%64]
+	vp.Assume(vp.All(c.A == 0, c.B&0x80 != 0, int(c.R&0x3f) <= maxStops, int(c.R&0x3f) >= 2)) // a gradient-encoding value
+	z1.StartPath(adj, 1, 2)
+	z1.ClosePathEndPath()
+	wadj := vp.U8("wadj")
+	vp.Assume(vp.And(wadj >= 1, wadj <= 6)) // a register other than the one holding the gradient descriptor may be written too
+	if vp.Choice("write", 2) == 0 {
+		z1.SetNReg(wadj, false, vp.F32("v"))
+	} else {
+		z1.SetCReg(wadj, false, ivg.RGBAColor(color.RGBA{0x20, 0x40, 0x60, 0xff})) // a fixed valid colour: the target register is what varies
+	}
+	s2 := z1.VPGet()
+	z2.SetRasterizer(&r2, s2.R)
+	z2.VPSet(&s2)
+	r1.Log = nil
+	z1.StartPath(adj, 3, 4)
+	z2.StartPath(adj, 3, 4)
+	vp.Reach("repainted")
+	k1, f1, g1 := z1.VPFill()
+	k2, f2, g2 := z2.VPFill()
+	vp.Assert(len(r1.Log) == len(r2.Log), "the second path causes the rasteriser activity the registers prescribe, whatever was painted before")
+	d1, d2 := z1.VPGet().Disabled, z2.VPGet().Disabled
+	vp.Assert(d1 == d2, "the second path is enabled exactly when the registers say so")
+	if d1 || d2 {
+		return
+	}
+	vp.Assert(k1 == k2, "same kind of paint")
+	if k1 != k2 {
+		return
+	}
+	if k1 == 1 {
+		vp.Assert(f1 == f2, "same flat colour")
+		return
+	}
+	if k1 != 2 {
+		return
+	}
+	vp.Reach("gradient")
+	vp.Assert(vp.And(g1.Shape == g2.Shape, g1.Spread == g2.Spread), "same shape and spread")
+	same := true
+	for i := 0; i < 6; i++ {
+		same = vp.And(same, vp.SameF64(g1.Pix2Grad[i], g2.Pix2Grad[i]))
+	}
+	vp.Assert(same, "same pixel-to-gradient matrix as a Renderer without the earlier path")
+	vp.Assert(len(g1.Ranges) == len(g2.Ranges), "same number of colour ranges")
+	if len(g1.Ranges) == len(g2.Ranges) {
+		ok := vp.And(g1.First == g2.First, g1.Last == g2.Last)
+		for i := range g1.Ranges {
+			a, b := &g1.Ranges[i], &g2.Ranges[i]
+			ok = vp.All(ok, a.Offset0 == b.Offset0, a.Offset1 == b.Offset1, a.R0 == b.R0, a.G0 == b.G0, a.B0 == b.B0, a.A0 == b.A0,
+				a.R1 == b.R1, a.G1 == b.G1, a.B1 == b.B1, a.A1 == b.A1)
+		}
+		vp.Assert(ok, "same stops as a Renderer without the earlier path")
+	}
+}
